@@ -291,6 +291,15 @@ func (n *Net) Addr() net.Addr { return addr("server") }
 
 func (n *Net) Links() []*Link { n.mu.Lock(); defer n.mu.Unlock(); return append([]*Link(nil), n.links...) }
 
+// SetOnDial / SetOnFirstWrite install the fault-plan hooks (read by Dial under the same lock).
+func (n *Net) SetOnDial(f func(l *Link) error) { n.mu.Lock(); n.OnDial = f; n.mu.Unlock() }
+func (n *Net) GetOnDial() func(l *Link) error  { n.mu.Lock(); defer n.mu.Unlock(); return n.OnDial }
+func (n *Net) SetOnFirstWrite(f func(l *Link, data []byte)) {
+	n.mu.Lock()
+	n.OnFirstWrite = f
+	n.mu.Unlock()
+}
+
 // SetRefuse makes every dial from now on fail ("connection refused") or succeed again.
 func (n *Net) SetRefuse(b bool) { n.mu.Lock(); n.refuse = b; n.mu.Unlock() }
 
